@@ -321,10 +321,19 @@ class Check:
 
 
 def known_findings(prop):
+    """status=finding entries of a property: known_findings.json, plus (while a property is
+    being developed) the fragment known_findings.d/<prop>.json."""
+    out, seen = [], set()
     path = os.path.join(ROOT, "known_findings.json")
-    if not os.path.exists(path):
-        return []
-    return [e for e in json.load(open(path))["findings"] if e["property"] == prop and e.get("status") == "finding"]
+    entries = json.load(open(path))["findings"] if os.path.exists(path) else []
+    frag = os.path.join(ROOT, "known_findings.d", prop + ".json")
+    if os.path.exists(frag):
+        entries = entries + json.load(open(frag))
+    for e in entries:
+        if e["property"] == prop and e.get("status") == "finding" and e["id"] not in seen:
+            seen.add(e["id"])
+            out.append(e)
+    return out
 
 
 # ---- S-expression helpers for the line protocol ---------------------------
